@@ -200,7 +200,8 @@ pub fn handoff_check(cx: &mut Ctx, hostile_world: bool) {
     let h = cx.h;
     let cache_on = cx.param_bool("cache_on");
     for (ci, conn) in h.backend_conns.iter().enumerate() {
-        if conn.kind != "session" {
+        // a mirror connection replays, best effort, what several clients sent: it has no owner
+        if conn.kind != "session" || is_mirror_conn(cx.spec, conn) {
             continue;
         }
         let mut prev_owner: Option<u32> = None;
